@@ -824,7 +824,7 @@ CO_ERR COSdoUploadBlock(CO_SDO *srv)
     uint8_t  len;
     uint8_t  i;
 
-    if (srv->Obj == 0) {
+    if ((srv->Obj == 0) || (srv->Blk.SegNum == 0)) {
         COSdoAbort(srv, CO_SDO_ERR_CMD);
         return (CO_ERR_SDO_ABORT);
     }
